@@ -20,6 +20,7 @@ type c07Case struct {
 	Source string `json:"source"`
 	Expect string `json:"expect"`
 	Then   string `json:"then_parse,omitempty"` // a text parsed afterwards (the first tree must stay intact)
+	Stmts  int    `json:"statements,omitempty"` // in-context cases: the number of statements the text has when the spelling is one literal
 }
 
 // refUnquote decodes the body of a "..." or '...' literal by the Go escape
@@ -249,6 +250,12 @@ func c07Strings(w *run.Worker) {
 	if w.Thorough {
 		ctxLen = 4
 	}
+	ctxStmts := make([]int, len(contexts))
+	for i, c := range contexts {
+		if p, err := parseTree(c); err == nil {
+			ctxStmts[i] = len(p)
+		}
+	}
 	inContext := func(body string) {
 		for style := 0; style < 5; style++ {
 			kind, val := c07ExpectString(style, body)
@@ -266,7 +273,12 @@ func c07Strings(w *run.Worker) {
 				}
 				w.Eval()
 				prog, err := parseTree(src)
-				mk := c07Case{Source: src, Expect: kind + ":" + strconv.Quote(val)}
+				// as in the stand-alone part: a text that parses, but not as ONE further assignment, did not
+				// accept the spelling as a literal (the quote characters formed something else)
+				if err == nil && (len(prog) != ctxStmts[ci]+1 || prog[len(prog)-1].K != rt.KAssign || len(prog[len(prog)-1].Kids) != 2) {
+					err = fmt.Errorf("SHAPE: parsed as %s", rt.SexpProg(prog))
+				}
+				mk := c07Case{Source: src, Expect: kind + ":" + strconv.Quote(val), Stmts: ctxStmts[ci] + 1}
 				key := fmt.Sprintf("C07:string-in-context:%d:", ci)
 				switch {
 				case kind == "reject":
@@ -276,8 +288,6 @@ func c07Strings(w *run.Worker) {
 					}
 				case err != nil:
 					w.Violate(key+"valid-rejected:"+c07EscClass(body), fmt.Sprintf("valid literal rejected: %q (denotes %q): %v", src, val, err), mk)
-				case len(prog) == 0:
-					w.Violate(key+"wrong-value:"+c07EscClass(body), fmt.Sprintf("%q: parsed to an empty program", src), mk)
 				default:
 					var n *rt.Node
 					if last := prog[len(prog)-1]; len(prog) >= 1 && last.K == rt.KAssign && len(last.Kids) == 2 {
@@ -589,6 +599,10 @@ func c07Replay(raw json.RawMessage) (bool, string) {
 		got += err.Error()
 	} else {
 		got = rt.SexpProg(prog)
+	}
+	if err == nil && c.Stmts > 0 && len(prog) != c.Stmts {
+		err = fmt.Errorf("SHAPE: %d statements", len(prog))
+		got = "not one literal: " + got
 	}
 	bad := true
 	switch {
